@@ -11,6 +11,8 @@ MANIFEST = dict(
          "ResetOnSuccess, or the cancellation error; nothing subscribed once cancellation is observed) - Retry/RetryWithConfig, While*, DoWhile*, RepeatWith, "
          "OnErrorResumeNextWith in full; Catch and Concat as `_partial` theorems excluding exactly the two known deviation classes (Catch: fallback subscribed while "
          "the first attempt is alive, log s1 s2 t2 t1; Concat: sources after a failed one are still subscribed), each with a witness theorem replayed on the real code. "
+         "Schedules: attempts that end inside Subscribe or after the operator entered Wait(); the remaining window (terminal between teardown registration and Wait(): "
+         "Wait() returns while the previous teardown is still running, log s1 s2 t1 ...) is a third known finding, modelled (overlapLog), proved non-sequential and driven on the real code (mode=tdrace). "
          "Tie: kind `resub` - a scripted cold source whose n-th subscription plays the n-th outcome (inside Subscribe, or from a goroutine), with event log, "
          "counters and live gauge; model and real operators run on the same cases, trace + log + attempts + live + condition evaluations must be equal; plus a "
          "model-independent oracle (sequential log, closed-form attempt count, forwarded values, terminal) on the implementation result.",
@@ -116,11 +118,14 @@ def known_class(f):
     """the decidable classes excluded by the `_partial` theorems (Spec.Known.*)"""
     outs = outcomes(f.get('srcs'))
     fails = lambda j: j < len(outs) and outs[j][1]
+    kc = set()
+    if f.get('mode') == 'tdrace':
+        kc.add('waitWindow')
     if f.get('op') == 'Catch' and fails(0):
-        return 'catchFallback'
+        kc.add('catchFallback')
     if f.get('op') == 'Concat' and any(fails(j) for j in range(max(int(f.get('p', '0')) - 1, 0))):
-        return 'concatErrorBeforeLast'
-    return None
+        kc.add('concatErrorBeforeLast')
+    return kc
 
 
 def oracle_resub(case, gd):
@@ -136,13 +141,21 @@ def oracle_resub(case, gd):
     got_n = int(gd.get('attempts', '-1'))
     if [e for e in log if e.startswith('s')] != [f's{i}' for i in range(1, got_n + 1)]:
         return 'log: subscriptions are not numbered 1..attempts'
-    if kc != 'catchFallback':
+    if 'waitWindow' in kc:
+        # the driven schedule of the known finding: s1 s2 t1 s3 t2 ... (each teardown still running at the next subscribe)
+        want = [f's{i}' for i in range(1, min(got_n, 1) + 1)]
+        for i in range(2, got_n + 1):
+            want += [f's{i}', f't{i - 1}']
+        want += [f't{got_n}'] if got_n else []
+        if log != want:
+            return 'sequence: not the log of the Wait-window schedule (s1 s2 t1 s3 t2 ...)'
+    elif 'catchFallback' not in kc:
         seq = [x for i in range(1, got_n + 1) for x in (f's{i}', f't{i}')]
         if log != seq:
             return 'sequence: the subscribe/teardown log is not s1 t1 s2 t2 ... (an attempt started before the previous one was released)'
         if int(gd.get('live', '0')) > 1:
             return 'sequence: two attempts alive at once'
-    if kc != 'concatErrorBeforeLast' and got_n != n:
+    if 'concatErrorBeforeLast' not in kc and got_n != n:
         return f'count: {got_n} attempts, the configuration and the outcomes dictate {n}'
     tr = strip_ctx(gd.get('trace'))
     got_vals = [t[1:] for t in tr if t.startswith('N')]
@@ -178,10 +191,10 @@ def check(ctx):
     return dict(
         rule='kind resub: Retry, RetryWithConfig (MaxRetries 0..3(5), Delay 0/300us, ResetOnSuccess), RepeatWith (count 0..3(5)), While/DoWhile (plain and IWithContext; '
              'every truth sequence of length <= 3(4)), Catch, OnErrorResumeNextWith (0..3(5) fallbacks), Concat (0..3(5) sources) x every list of <= 3 (thorough: 4) attempt '
-             'outcomes with <= 2 values ending in completion or error + seeded longer lists (<= 8 attempts, <= 3 values) x {sync, goroutine} attempts x downstream leaving '
+             'outcomes with <= 2 values ending in completion or error + seeded longer lists (<= 8 attempts, <= 3 values) x {sync, goroutine} attempts (+ the driven Wait-window schedule for lists <= 2) x downstream leaving '
              'after 1..3 values x (Retry) context cancelled before subscribing / before each notification of each attempt / in each teardown; compared EQUAL: delivered trace '
              'with contexts, subscribe/teardown event log, number of subscriptions, max attempts alive, condition evaluations; oracle on the implementation alone: '
              'sequential log, closed-form count, forwarded values, terminal; non-trivial = at least two attempts or a delivered value',
-        assumptions=['attempts that run on goroutines are scheduled with one P (GOMAXPROCS(1)) so that the run is deterministic; '
-                     'the window in which Wait() returns while the finalizers of the previous attempt are still running (subscription.go:104-150 vs 167-177) is not explored here'],
+        assumptions=['attempts that run on goroutines are scheduled with one P (GOMAXPROCS(1)) so that the run is deterministic (the terminal arrives while the operator is in Wait()); '
+                     'the other asynchronous schedule - terminal before the operator reaches Wait() - is driven explicitly by mode=tdrace (known finding: Wait window)'],
         extra={'distribution': dist})
